@@ -117,7 +117,14 @@ pub fn project_of(c: &Case) -> (Project, u64) {
         }
         Shape::ImportGraph => {
             let nfiles = 1 + e.below(4);
-            let names: Vec<String> = (0..nfiles).map(|i| if i == 0 { "main.asm".to_string() } else if i == 2 { "sub/f2.asm".to_string() } else { format!("f{}.asm", i) }).collect();
+            let nfiles = nfiles + e.below(2);
+            let names: Vec<String> = (0..nfiles).map(|i| match i {
+                0 => "main.asm".to_string(),
+                2 => "sub/f2.asm".to_string(),
+                3 => if e.chance(1, 2) { "oth/f3.asm".to_string() } else { "f3.asm".to_string() },
+                4 => "sub/f4.asm".to_string(),
+                _ => format!("f{}.asm", i),
+            }).collect();
             let mut files = BTreeMap::new();
             for (i, name) in names.iter().enumerate() {
                 let mut t = String::new();
@@ -131,10 +138,25 @@ pub fn project_of(c: &Case) -> (Project, u64) {
                             let k = e.below(nfiles);
                             // path relative to the importing file's directory
                             let tn = &names[k];
-                            if name.starts_with("sub/") {
-                                if let Some(s) = tn.strip_prefix("sub/") { s.to_string() } else { format!("../{}", tn) }
-                            } else {
-                                tn.clone()
+                            let own_dir = name.rsplit_once('/').map(|(d, _)| d);
+                            let (tdir, tfile) = match tn.rsplit_once('/') {
+                                Some((d, f)) => (Some(d), f),
+                                None => (None, tn.as_str()),
+                            };
+                            // one of the equivalent spellings of the path from the importing file's directory
+                            match (own_dir, tdir) {
+                                (None, None) => match e.below(4) {
+                                    0 => format!("./{}", tfile),
+                                    1 => format!("sub/../{}", tfile),
+                                    _ => tfile.to_string(),
+                                },
+                                (None, Some(d)) => if e.chance(1, 4) { format!("./{}/{}", d, tfile) } else { format!("{}/{}", d, tfile) },
+                                (Some(_), None) => format!("../{}", tfile),
+                                (Some(o), Some(d)) if o == d => match e.below(3) {
+                                    0 => format!("../{}/{}", d, tfile),
+                                    _ => tfile.to_string(),
+                                },
+                                (Some(_), Some(d)) => format!("../{}/{}", d, tfile),
                             }
                         }
                     };
